@@ -129,10 +129,14 @@ impl StateMachine<'_> {
         utils::path::relativize_path_maybe(&mut path_or_mode, self.config);
         self.plus_file = path_or_mode;
         self.plus_file_event = file_event;
-        self.painter
-            .set_syntax(get_filename_from_diff_header_line_file_path(
-                &self.plus_file,
-            ));
+        // A deleted file has no plus-side name ("/dev/null"): keep the syntax chosen from
+        // the minus-side name instead of falling back to the default language.
+        if self.plus_file != "/dev/null" {
+            self.painter
+                .set_syntax(get_filename_from_diff_header_line_file_path(
+                    &self.plus_file,
+                ));
+        }
         self.current_file_pair = Some((self.minus_file.clone(), self.plus_file.clone()));
 
         self.painter.paint_buffered_minus_and_plus_lines();
